@@ -70,7 +70,7 @@ PROPS = {
                 assumptions=['panic-freedom is proved for the regenerated integer kernels (all machine integers) and for finished transactions in the model; panics the Go runtime can raise in code the model abstracts (nil maps/files, NaN ordering in the skiplist, regexp) are searched by the api-fuzz suite (a search, labelled as such), not proved',
                              'lists shorter than 2^62 elements']),
     'C21': dict(modules=['NutsProofs.Props.C21'],
-                suites=[S('codec', (4, 500), (40, 4000), env_thorough={'VERIF_CODEC_ALLBITS': '1'})],
+                suites=[S('codec', (4, 500), (40, 4000), env_thorough={'VERIF_CODEC_ALLBITS': '1'}, shards=10)],
                 assumptions=['field values within their Go types (sizes < 2^32, ids and timestamps < 2^64); keys non-empty (tx.put rejects empty keys)',
                              'a flip inside a size field, and truncation, are enumerated against the implementation (tests), not proved: whether the CRC of the differently delimited string collides depends on the following bytes']),
     'C22': dict(modules=['NutsProofs.Props.C22'], suites=[S('modes', (250, 5), (4000, 5))],
